@@ -298,5 +298,6 @@ PROBES = {
     "msd-hash-after-escape-only-key": (_probe_roundtrip(_sm([("A", "1"), (";", "#x")])), "key ';' (only escaped characters, or empty) with value '#x': the '#' is reached from the previous line's break (msdparser escaping gap)"),
     "multi-value-key-only-none": (_probe_roundtrip(_sm([("TITLE", "t"), ("ATTACKS", None)])), "a key-only (None) ATTACKS/DISPLAYBPM property is written '#ATTACKS;' and re-parses as '' instead of None (the parser joins zero components)"),
     "msd-triple-slash": (_probe_roundtrip(_sm([("TITLE", "a///b")])), "value 'a///b': re-parse loses the tail as a comment (msdparser escaping gap)"),
+    "msd-triple-slash-in-key": (_probe_roundtrip(_sm([("A///B", "v")])), "key 'A///B': re-parse loses the rest of the line as a comment (msdparser escaping gap; the property lists '///' for values only)"),
     "msd-hash-in-key": (_probe_roundtrip(_sm([("A\n#B", "v")])), "key 'A\\n#B': re-parse splits the key (msdparser escaping gap)"),
 }
